@@ -88,7 +88,7 @@ from .icon_names import ICON_SET, LG_ICON_SET
 from .n import ComposableOption, FileId, SerializableType, TocTreeDirectiveEntry
 from .page import Page, PendingTask
 from .page_database import PageDatabase
-from .postprocess import Postprocessor, PostprocessorResult
+from .postprocess import Postprocessor, PostprocessorResult, without_ids
 from .specparser import Composable
 from .target_database import ProjectInterface, TargetDatabase
 from .types import (
@@ -595,7 +595,9 @@ class JSONVisitor:
             for item in definition_list.get_child_of_type(n.DefinitionListItem):
                 term_text = "".join(term.get_text() for term in item.term)
                 identifier = n.TargetIdentifier(item.start, [], [term_text])
-                identifier.children = item.term[:]
+                # The target is named by a copy of the term: the same nodes in both places
+                # would be emitted twice, footnote references and inline targets with one id
+                identifier.children = without_ids(deepcopy(item.term))
                 target = n.InlineTarget(item.start, [], "std", "term", None, None)
                 target.children = [identifier]
                 item.term.append(target)
@@ -1530,6 +1532,9 @@ class JSONVisitor:
                 heading = n.Heading((line,), [], heading_id)
                 heading.children = argument
                 doc.children.insert(0, heading)
+                # The title now lives in the heading; the directive keeps a copy without
+                # what must exist only once on a page (footnote references, inline targets)
+                doc.argument = without_ids(deepcopy(argument))
 
         elif name == "chapter":
             image_argument = options.get("image")
